@@ -17,13 +17,14 @@ func init() {
 // encoder: the struct type whose tags drive the output there, and the
 // conjunction of branch conditions under which the site is reached.
 type emitSite struct {
-	lit   *ast.CompositeLit // the encode proxy literal, when the site encodes one
-	litFd *ast.FuncDecl     // function the literal is written in
-	st    types.Type
-	conds []condLit
-	pos   token.Pos
-	recv  types.Object
-	binds map[types.Object]condLit // boolean parameters of a helper bound to the call-site expressions
+	lit    *ast.CompositeLit // the encode proxy literal, when the site encodes one
+	litFd  *ast.FuncDecl     // function the literal is written in
+	litVar types.Object      // the local the literal is held in, when members are set after it was built
+	st     types.Type
+	conds  []condLit
+	pos    token.Pos
+	recv   types.Object
+	binds  map[types.Object]condLit // boolean parameters of a helper bound to the call-site expressions
 }
 
 type condLit struct {
@@ -304,6 +305,32 @@ func (c *Ctx) emitSitesFor(fd *ast.FuncDecl, recv types.Object, comp string, bin
 				if p, ok := c.apath(arg); ok && p.Root == recv {
 					if comp == "" && len(p.Steps) == 0 || len(p.Steps) == 1 && p.Steps[0] == comp {
 						out = append(out, emitSite{st: derefType(c.typeOf(arg)), conds: conds, pos: arg.Pos(), recv: recv})
+					}
+				}
+				// a local encode proxy: built from a literal, some members set afterwards, then encoded
+				if id, ok := arg.(*ast.Ident); ok {
+					if ds := c.localDefs(fd)[c.objOf(id)]; len(ds) == 1 && ds[0] != nil {
+						d := unparen(ds[0])
+						if u, isAddr := d.(*ast.UnaryExpr); isAddr && u.Op == token.AND {
+							d = unparen(u.X)
+						}
+						if lit, isLit := d.(*ast.CompositeLit); isLit {
+							uses := false
+							ast.Inspect(lit, func(k ast.Node) bool {
+								if e, ok := k.(ast.Expr); ok {
+									if p, ok := c.apath(e); ok && p.Root == recv {
+										if len(p.Steps) == 0 || p.Steps[0] == comp || comp == "" || c.promotedThrough(recv.Type(), comp, p.Steps[0]) {
+											uses = true
+										}
+										return false
+									}
+								}
+								return true
+							})
+							if uses {
+								out = append(out, emitSite{st: c.typeOf(lit), conds: conds, pos: lit.Pos(), recv: recv, lit: lit, litFd: fd, litVar: c.objOf(id)})
+							}
+						}
 					}
 				}
 				// for _, part := range parts { json.Marshal(part) } where parts is the (variadic) parameter followed here
@@ -752,6 +779,37 @@ func (c *Ctx) proxyPointerMayBeNil(site *emitSite, goName string, env defEnv) st
 				val = kv.Value
 			}
 		}
+	}
+	if val == nil && site.litVar != nil && site.litFd != nil {
+		// the member is set after the literal was built: it is there only where that assignment runs
+		var assign *ast.AssignStmt
+		ast.Inspect(site.litFd.Body, func(n ast.Node) bool {
+			as, ok := n.(*ast.AssignStmt)
+			if !ok || len(as.Lhs) != 1 {
+				return true
+			}
+			if p, ok := c.apath(as.Lhs[0]); ok && p.Root == site.litVar && len(p.Steps) == 1 && p.Steps[0] == goName {
+				assign = as
+			}
+			return true
+		})
+		if assign == nil {
+			return "the literal never sets it"
+		}
+		var conds []string
+		for _, cl := range c.condsAt(site.litFd, assign) {
+			v := c.evalCondB(cl.e, site.recv, env, nil)
+			if v >= 0 && cl.neg {
+				v = 1 - v
+			}
+			if v != 1 {
+				conds = append(conds, exprString(cl.e))
+			}
+		}
+		if len(conds) > 0 {
+			return "it is set only when " + strings.Join(conds, " and ") + ", which a document valid for this definition need not satisfy"
+		}
+		return ""
 	}
 	if val == nil {
 		return ""
